@@ -11,6 +11,7 @@ from vlib import core
 from harness import c19_gen as G
 from harness import c19_real as R
 from harness import c19_pairs as P
+from harness import c19_api as A
 
 PROP = 'C19'
 MODEL_MODULES = ['TenpyModel.Util.J', 'TenpyModel.C19.Order', 'TenpyModel.C19.Lattice', 'TenpyModel.C19.Couplings',
@@ -43,6 +44,12 @@ ASSUMPTIONS = ['all sizes Ls >= 1; numpy integer mod / floor-division semantics 
                'sites of the unit cell are None placeholders (HelicalLattice: SpinHalfSite without charges)']
 
 KNOWN_TAG = '[shifted-bc,open-x]'
+ANCHOR_COVERAGE_NOTE = ('measured 2026-09-26 with coverage 7 --branch on the quick tier (seed 0, real-code side run in-process): '
+                        'tenpy/models/lattice.py 62% -> 75% (statements missed 502 -> 336 of 1446, partial branches 52 -> 21); '
+                        'tenpy/models/model.py 14% -> 35% (the lattice consumers add_onsite/add_coupling/add_multi_coupling/'
+                        'coupling_strength_add_ext_flux/init_lattice; the rest of model.py belongs to C10). Still unexecuted in '
+                        'lattice.py: hdf5 save/load, plot_*, reciprocal basis / Brillouin zone (SimpleBZ), DipolarChargeInfo branches '
+                        'of test_sanity/mps_sites; see notes/C19.md "Coverage round".')
 
 
 # ---------------------------------------------------------------------------------------------
@@ -455,9 +462,13 @@ def run(ctx):
     res = core.Result()
     workers = min(16, os.cpu_count() or 1)
     corpus = load_corpus()
-    res.merge(run_cases(ctx, corpus, workers=1))
+    for c in [c for c in corpus if c.get('part') == 'api']:
+        res.merge(A.replay_case(c))
+    res.merge(run_cases(ctx, [c for c in corpus if c.get('part') != 'api'], workers=1))
     res.extra['corpus_cases'] = len(corpus)
     res.merge(P.run(ctx))
+    res.merge(A.run(ctx, factor=1 if ctx.quick else 25))
+    res.extra['anchor_coverage_note'] = ANCHOR_COVERAGE_NOTE
     t0 = time.time()
     if ctx.quick:
         cases = quick_cases(ctx)
@@ -487,7 +498,7 @@ def run(ctx):
 def search(ctx, reasons):
     """failing-input search with the oracle only (no model), bigger sample"""
     rng = ctx.sub_rng('search')
-    cases = load_corpus() + seed_cases(rng)
+    cases = [c for c in load_corpus() if c.get('part') != 'api'] + seed_cases(rng)
     n = 600 if ctx.quick else 6000
     for _ in range(n):
         c = G.random_case(rng)
@@ -499,6 +510,7 @@ def search(ctx, reasons):
     with_queries(cases, rng, n_detail=2, n_multi=6)
     res = run_cases(ctx, cases, use_model=False, workers=min(16, os.cpu_count() or 1), chunk=10)
     res.merge(P.search(ctx))
+    res.merge(A.run(ctx, factor=4 if ctx.quick else 40))
     return res
 
 
@@ -522,4 +534,6 @@ def replay(ctx, payload):
     case = payload.get('case') or {}
     if case.get('part') == 'pairs':
         return P.run(ctx)
+    if case.get('part') == 'api':
+        return A.replay_case(case)
     return run_cases(ctx, [case], workers=1, do_shrink=False)
